@@ -28,7 +28,7 @@ ADAPT = {"gibbs": 100, "metropolis": 100, "pca": 100, "hmc": 15, "ensemble": 1}
 
 
 @st.composite
-def cases(draw):
+def cases(draw, focus=None):
     cfg = draw(S.sampler_configs(bounds="maybe"))
     ens = cfg["cls"] == "ensemble"
     ops = []
@@ -56,7 +56,15 @@ def cases(draw):
     # the numeric types of what the user hands over: a model evaluated in single precision returns float32 log-probabilities /
     # gradients, a temperature or mass taken from a numpy array is a numpy scalar, widths / start may be float32 arrays, a matrix
     # mass may be a strided view of a larger matrix.  The file holds plain numbers: the reloaded sampler must compute as the original does
-    if draw(st.integers(0, 2)) == 0:
+    if focus == "forms-late":
+        # the class of cases in which a numeric form can matter at all: saved after the first adaptation event (the tuning state has been
+        # recomputed from what the user handed over), then continued through further adaptation events
+        if ens:
+            cfg["ops"] = [{"op": "advance", "m": draw(st.sampled_from([2, 3, 5]))}, {"op": "save", "plots": False}, {"op": "both", "m": draw(st.sampled_from([3, 5]))}]
+        else:
+            first = draw(st.sampled_from([40, 101, 125, 140, 240]))
+            cfg["ops"] = [{"op": "advance", "m": first}, {"op": "save", "plots": False}, {"op": "both", "m": draw(st.sampled_from([40, 101, 240]))}]
+    if focus == "forms-late" or draw(st.integers(0, 1)) == 0:
         cfg["prec"] = {"T": draw(st.sampled_from(["python", "numpy"])), "widths": draw(st.sampled_from([None, "float32"])),
                        "start": draw(st.sampled_from([None, "float32"])), "mass": draw(st.sampled_from([None, "view"]))}
         cfg["target"] = dict(cfg["target"])
@@ -217,6 +225,8 @@ def body(case, ctx):
 
 
 SUBCHECKS = [
-    Sub("histories", lambda t: cases(), body, quick=480, thorough=8000, shards_quick=16, shards_thorough=16, weight=10,
+    Sub("histories", lambda t: cases(), body, quick=640, thorough=8000, shards_quick=16, shards_thorough=16, weight=10,
         rule="a save before or after the first adaptation event followed by >= 20 further steps of both objects"),
+    Sub("forms-late", lambda t: cases(focus="forms-late"), body, quick=160, thorough=2400, shards_quick=8, shards_thorough=16, weight=10,
+        rule="numeric forms of the user's inputs drawn for every case; saved after the first adaptation event and continued for >= 20 steps"),
 ]
